@@ -1,5 +1,4 @@
-import BobModel.Proofs.C15Gc
-import BobModel.Proofs.C15FF
+import BobModel.Proofs.C15Init
 /-
 C15 — Shared package store is safe under concurrent projects.
 
@@ -12,31 +11,6 @@ contains the witness schedule (replayed on the real code by harness/props/c15.py
 -/
 namespace C15
 open Share
-
-/-- a consistent quiescent store: no half written file, every visible package complete with valid pkg.json,
-the counters of the ghost bookkeeping agree -/
-structure GoodStore (H : Nat → Nat) (g : Store) : Prop where
-  repo : g.repo ≠ .torn
-  pkgs : ∀ b d, g.final b = some d → Complete H d
-  counts : CountInv g
-
-def initSt (g : Store) (progs : List Prog) : St := ⟨g, mkProcs progs⟩
-
-theorem getElem?_mkProcs {progs : List Prog} {i : Nat} {pi : Proc} (h : (mkProcs progs)[i]? = some pi) :
-    pi.pc = .start ∧ pi.pub = false := by
-  unfold mkProcs at h
-  rw [List.getElem?_map] at h
-  cases hp : progs[i]? with
-  | none => rw [hp] at h; cases h
-  | some pr => rw [hp] at h; simp at h; subst h; exact ⟨rfl, rfl⟩
-
-theorem init_mutex (g : Store) (progs : List Prog) : Mutex (initSt g progs) := by
-  intro i j pi pj hi _ hex _
-  have := (getElem?_mkProcs hi).1
-  rw [this] at hex; cases hex
-
-theorem init_invVC (H : Nat → Nat) (g : Store) (progs : List Prog) (hg : GoodStore H g) : InvVC H (initSt g progs) :=
-  ⟨hg.pkgs, fun i pi hi => by rw [(getElem?_mkProcs hi).1]; trivial, init_mutex g progs⟩
 
 /-! ### 1. visible ⇒ complete and hash matching -/
 
@@ -59,23 +33,6 @@ example : ∃ d, (run id false (initSt emptyStore [⟨.install 100 1 7 7 5 true 
     [0, 0, 0]).g.final 1 = some d ∧ Complete id d := ⟨_, rfl, rfl, 7, rfl, Or.inr ⟨_, rfl, rfl⟩⟩
 
 /-! ### 2. at most one install per Build-Id -/
-
-theorem init_pubInv (g : Store) (progs : List Prog) : PubInv (initSt g progs) := by
-  intro i pi hi
-  obtain ⟨h1, h2⟩ := getElem?_mkProcs hi
-  rw [h1]; exact h2
-
-theorem pubCount_mkProcs (progs : List Prog) (b : Bid) : pubCount (mkProcs progs) b = 0 := by
-  unfold pubCount
-  rw [List.countP_eq_zero]
-  intro q hq
-  obtain ⟨i, hi, rfl⟩ := List.getElem_of_mem hq
-  have := (getElem?_mkProcs (List.getElem?_eq_getElem hi)).2
-  simp [this]
-
-theorem reach_pubInv (H : Nat → Nat) (ff : Bool) (g : Store) (progs : List Prog) (sched : List Pid) :
-    PubInv (run H ff (initSt g progs) sched) :=
-  run_inv H ff (fun s p => pubInv_step H ff s p) _ (init_pubInv g progs) sched
 
 /-- **install_once**: for every Build-Id, in every state of every interleaving, the number of processes whose
 own rename published the package equals the number of collections of that Build-Id since the start plus
@@ -214,9 +171,6 @@ def inst (ws bid : Nat) (link : Bool := false) : Prog := ⟨.install ws bid bid 
 def useP (ws bid : Nat) (link : Bool := false) : Prog := ⟨.use ws bid link, none, true⟩
 def gcAll : Prog := ⟨.gc false true false, none, true⟩
 
-theorem goodStore_empty (H : Nat → Nat) : GoodStore H emptyStore :=
-  ⟨by simp [emptyStore], by intro b d h; simp [emptyStore] at h, by intro b; simp [emptyStore, present]⟩
-
 /-- F-C15-1: the first install is between `makedirs` and `__addPackage`; another project's
 `bob clean --shared --all-unused` raises FileNotFoundError -/
 theorem witness_gc_on_empty_store :
@@ -258,34 +212,6 @@ theorem no_spurious_failure_refuted : ¬ no_spurious_failure_goal id false := by
 
 
 /-! ### 3. accounting, and 5. no spurious failure for the patched code -/
-
-/-- a consistent store in which repo.json exists and records exactly the installed packages -/
-structure GoodStoreFF (g : Store) (L : List (Bid × Nat)) : Prop where
-  repo : g.repo = .valid L
-  nodup : (keys L).Nodup
-  recorded : ∀ b sz, (b, sz) ∈ L → ∃ d m, g.final b = some d ∧ d.info = some (.valid m) ∧ m.size = sz
-  pkgs : ∀ b d, g.final b = some d → ∃ m, d.info = some (.valid m) ∧ (b, m.size) ∈ L
-
-theorem init_invFF (g : Store) (L : List (Bid × Nat)) (progs : List Prog) (hg : GoodStoreFF g L) :
-    InvFF (initSt g progs) L := by
-  refine ⟨init_mutex g progs, ?_, ?_, hg.nodup, hg.recorded, ?_, ?_, ?_⟩
-  · intro i pi hi; rw [(getElem?_mkProcs hi).1]; exact ⟨trivial, trivial, trivial⟩
-  · left
-    refine ⟨hg.repo, ?_⟩
-    intro i pi rm hi hr
-    rw [(getElem?_mkProcs hi).1] at hr; cases hr
-  · intro b d hd
-    obtain ⟨m, hm, h⟩ := hg.pkgs b d hd
-    exact ⟨m, hm, Or.inl h⟩
-  · intro i pi hi hw
-    rw [(getElem?_mkProcs hi).1] at hw; cases hw
-  · intro i j pi pj hi _ hw
-    rw [(getElem?_mkProcs hi).1] at hw; cases hw
-
-theorem reach_invFF (H : Nat → Nat) (g : Store) (L : List (Bid × Nat)) (progs : List Prog) (hg : GoodStoreFF g L)
-    (sched : List Pid) : ∃ L', InvFF (run H true (initSt g progs) sched) L' :=
-  run_inv (P := fun s => ∃ L', InvFF s L') H true (fun s p ⟨L', h⟩ => invFF_step H s L' p h) _
-    ⟨L, init_invFF g L progs hg⟩ sched
 
 /-- **no_spurious_failure_partial** (hypotheses added: `OpenLocked.__exit__` flushes before it unlocks — the
 proposed patch, `ff = true` — and repo.json exists at the start): in every interleaving of any number of install /
@@ -337,27 +263,8 @@ theorem accounting_partial (H : Nat → Nat) : accounting_goal H true := by
       · rw [(hnot i pi hi).2] at hw; cases hw
 
 
-/-- the hypotheses are satisfiable by a store with one installed package; from it two more installs, a use and an
-automatic gc (quota 8) run to a quiescent, accounted state in the patched model -/
-def g1 : Store :=
-  { storeExists := true, repo := .valid [(1, 5)],
-    final := upd (fun _ => none) 1 (some ⟨true, some 1, some (.valid ⟨1, 5, [100]⟩), 0⟩),
-    links := fun _ => none, clock := 1, nInst := fun _ => 0, nGc := fun _ => 0 }
-
-example : GoodStoreFF g1 [(1, 5)] := by
-  refine ⟨rfl, by decide, ?_, ?_⟩
-  · intro b sz h
-    simp only [List.mem_singleton, Prod.mk.injEq] at h
-    obtain ⟨rfl, rfl⟩ := h
-    exact ⟨⟨true, some 1, some (.valid ⟨1, 5, [100]⟩), 0⟩, ⟨1, 5, [100]⟩, rfl, rfl, rfl⟩
-  · intro b d h
-    by_cases e : b = 1
-    · subst e
-      have : d = ⟨true, some 1, some (.valid ⟨1, 5, [100]⟩), 0⟩ := by simpa [g1, upd] using h.symm
-      subst this
-      exact ⟨⟨1, 5, [100]⟩, rfl, by simp⟩
-    · simp [g1, upd, e] at h
-
+/-- from a store with one installed package two more installs, a use and an automatic gc (quota 8) run to a
+quiescent, accounted state in the patched model (`goodStoreFF_g1`: the hypotheses are satisfiable) -/
 example :
     let s := run id true (initSt g1 [inst 101 2, ⟨.install 102 3 3 3 5 true false, some 8, true⟩, useP 0 1])
       [0, 1, 2, 0, 1, 2, 0, 1, 2, 0, 1, 2, 0, 1, 2, 0, 1, 2, 1, 1, 1, 1, 1, 1, 1, 1, 1, 1, 1, 1, 0, 0, 0]
@@ -379,6 +286,26 @@ theorem witness_accounting_broken :
     s.g.repo = .valid [(1, 5), (2, 5)] ∧ (s.g.final 3).isSome = true ∧
       (s.procs.map (·.pc)) = [.done (.inst true), .done (.inst true), .done (.err .jsonDecode)] := by
   decide
+
+
+/-- hence the full accounting statement is false of the current code, even when repo.json exists at the start -/
+theorem accounting_refuted : ¬ accounting_goal id false := by
+  intro h
+  have hd : ∀ (i : Nat) (pi : Proc), (run id false (initSt g1 [inst 101 2, inst 102 3])
+      [1, 1, 1, 1, 0, 0, 0, 0, 0, 1, 1, 0]).procs[i]? = some pi → pi.pc.isDone = true := by
+    intro i pi hi
+    have hl : (run id false (initSt g1 [inst 101 2, inst 102 3]) [1, 1, 1, 1, 0, 0, 0, 0, 0, 1, 1, 0]).procs.map
+        (·.pc.isDone) = [true, true] := by decide
+    have : pi.pc.isDone ∈ [true, true] := by
+      rw [← hl]; exact List.mem_map.mpr ⟨pi, List.mem_of_getElem? hi, rfl⟩
+    simpa using this
+  obtain ⟨L, hr, _, hiff⟩ := h g1 [(1, 5)] [inst 101 2, inst 102 3] goodStoreFF_g1 [1, 1, 1, 1, 0, 0, 0, 0, 0, 1, 1, 0] hd
+  have hrepo : (run id false (initSt g1 [inst 101 2, inst 102 3]) [1, 1, 1, 1, 0, 0, 0, 0, 0, 1, 1, 0]).g.repo =
+      .valid [(1, 5), (2, 5)] := by decide
+  rw [hrepo] at hr
+  cases hr
+  have : (3, 5) ∈ [(1, 5), (2, 5)] := (hiff 3 5).mpr ⟨⟨true, some 3, some (.valid ⟨3, 5, [102]⟩), 1⟩, ⟨3, 5, [102]⟩, by decide, rfl, rfl⟩
+  simp at this
 
 /-! ### 6. not collected while used — violated by the current code -/
 
